@@ -19,6 +19,7 @@ PairsToFn(S) == [k \in {p[1] : p \in S} |-> (CHOOSE p \in S : p[1] = k)[2]]
 Expected(n, e) ==
     IF e.op = "reindex" THEN Relabel(n, e.tbl, PairsToFn(ToSet(e.lk)))
     ELSE IF e.op = "continuous" THEN Relabel(n, e.tbl, ContLookup(TblLabs(n, e.tbl), e.start))
+    ELSE IF e.op = "continuous_all" THEN ContAll(n, e.start)
     ELSE IF e.op = "drop_junctions" THEN DropJunctions(n, ToSet(e.js))
     ELSE IF e.op = "drop_elements_at_junctions" THEN DropElementsAtJ(n, ToSet(e.js))
     ELSE IF e.op = "drop_pipes" THEN DropPipes(n, ToSet(e.ps))
@@ -26,8 +27,8 @@ Expected(n, e) ==
     ELSE IF e.op = "select_subnet" THEN Select(n, ToSet(e.js))
     ELSE n
 
-IsRelabel(e) == e.op \in {"reindex", "continuous"}
-IsTool(e) == e.op \in {"reindex", "continuous", "drop_junctions", "drop_elements_at_junctions", "drop_pipes",
+IsRelabel(e) == e.op \in {"reindex", "continuous", "continuous_all"}
+IsTool(e) == e.op \in {"reindex", "continuous", "continuous_all", "drop_junctions", "drop_elements_at_junctions", "drop_pipes",
                        "fuse_junctions", "select_subnet"}
 
 (* rows that the call was not asked to touch must come out identical *)
